@@ -123,6 +123,13 @@ Theorem C11_dot_refuted :
 Proof. exact Proof.C11.dot_refuted. Qed.
 Print Assumptions C11_dot_refuted.
 
+(* and the escape is not an accident of one directory: under the pinned check ".." leaves EVERY state
+   directory that does not clean to "/" *)
+Theorem C11_dotdot_escapes_every_dir : forall dir, clean dir <> [slash] ->
+  local_accepts_prefix [dot; dot] = true /\ inside (clean dir) (entry_path dir [dot; dot]) = false.
+Proof. exact Proof.C11.dotdot_escapes_everywhere. Qed.
+Print Assumptions C11_dotdot_escapes_every_dir.
+
 (* ---- non-vacuity and boundary examples *)
 
 (* "library/ubuntu:22.04" is accepted and lands in /var/cache/u/library/ubuntu:22.04/data *)
@@ -177,3 +184,22 @@ Example C11_suffixes_ordinary :
   normal_path data_name = true /\ existsb (N.eqb slash) data_name = false /\ shard_n = 2%nat /\
   hashstate_fmt = [95;104;97;115;104;115;116;97;116;101;115;47;37;115;47;37;115].
 Proof. vm_compute. repeat split; reflexivity. Qed.
+
+(* blob names: whatever digest parameter parses, the CAS paths of its hex part are inside the store *)
+Theorem C11_blob_name_contained : forall raw h dir, parse_digest raw = Some h ->
+  inside (clean dir) (cas_path dir h) = true.
+Proof. exact Proof.C11.blob_name_contained. Qed.
+Print Assumptions C11_blob_name_contained.
+
+(* sha256:../../… padded to 64 characters, a digest with two ':' and an empty one are refused; upper-case hex parses *)
+Example C11_digest_examples :
+  map (fun r => match parse_digest r with Some _ => true | None => false end)
+    [ [115;104;97;50;53;54;58] ++ repeat 48 64;
+      [115;104;97;50;53;54;58] ++ repeat 65 64;
+      [115;104;97;50;53;54;58] ++ [46;46;47] ++ repeat 48 61;
+      [115;104;97;50;53;54;58] ++ repeat 48 63;
+      [115;104;97;50;53;54;58;58] ++ repeat 48 64;
+      [115;104;97;49;58] ++ repeat 48 64;
+      [] ]
+  = [true; true; false; false; false; false; false].
+Proof. vm_compute. reflexivity. Qed.
